@@ -19,7 +19,7 @@ LEVEL = "model_checking"
 RULE = (
     "Exhaustive product for grid(): region {4 dyadic regions: positive, negative, large offset, non-square} given or inferred from the "
     "fitted data x 1..3 components x {shape in {1..4}^2, scalar and per-direction spacing x both adjust modes} x both registrations x "
-    "extra_coords {none, 1, 2} x projection {none, (2e+1, -n), (e+n, e-n), axis swap}; explicit coordinates {1-D axes, 2-D meshgrid, "
+    "extra_coords {none, 1, 2} x projection {none, (2e+1, -n), (e+n, e-n), axis swap}; explicit coordinates {1-D axes, 2-D meshgrid (for the real gridders also column-major, Fortran copies, a single row, a single column), "
     "non-meshgrid (must raise), coordinates together with shape/spacing/region (must raise)}; custom dims and data_names, 4 components "
     "without names (must raise), missing region (must raise). profile(): lattice end points (vertical, horizontal, reversed, "
     "coincident) x size 1..5 x projection with inverse (linear, rotated and a non-linear Mercator-like one) x extra_coords; explicit coordinates also descending / unsorted. scatter(): regions x sizes 0..4 x seeds 0..3 x projection. Real "
@@ -663,6 +663,39 @@ def run(case, rec):
                         bad = (i, j, float(vals[i, j]), float(p))
             rec.check(bad is None, "%s grid value at %s differs from predict at that node: %s" % (name, bad[:2] if bad else "", bad))
         rec.check(ds.attrs.get("metadata") == "Generated by " + repr(est), "metadata")
+        # explicit coordinates for a REAL gridder (round 8, seed C05-15: the value at [i, j] is the prediction at (easting[j], northing[i])
+        # whatever the memory layout of the 2-D arrays): 1-D axes, a C-ordered meshgrid, a column-major meshgrid (transposed "ij" mesh),
+        # a single row and a single column given as 2-D arrays (seed C05-16)
+        xe, xn = np.array([0.5, 1.0, 3.0, 3.5]), np.array([0.25, 1.5, 2.5])
+        me, mn = np.meshgrid(xe, xn)
+        ie, in_ = np.meshgrid(xe, xn, indexing="ij")
+        forms = {"1-D axes": ((xe, xn), xe, xn), "2-D C-ordered meshgrid": ((me, mn), xe, xn), "2-D column-major meshgrid": ((ie.T, in_.T), xe, xn),
+                 "2-D Fortran copies": ((np.asfortranarray(me), np.asfortranarray(mn)), xe, xn),
+                 "2-D single row": ((me[:1], mn[:1]), xe, xn[:1]), "2-D single column": ((me[:, :1], mn[:, :1]), xe[:1], xn)}
+        for fname, (cc, ax_e, ax_n) in forms.items():
+            dsx = call(rec, est.grid, coordinates=cc, **({"projection": pf} if pf is not None else {}))
+            if raised(dsx):
+                rec.check(False, "%s.grid(coordinates = %s) raised %r" % (name, fname, dsx))
+                continue
+            if not rec.check(np.array_equal(dsx.easting.values, ax_e) and np.array_equal(dsx.northing.values, ax_n),
+                             "%s.grid(coordinates = %s): coordinate vectors %s / %s are not the given ones" % (name, fname, dsx.easting.values.tolist(), dsx.northing.values.tolist())):
+                continue
+            for k, nm in enumerate(list(dsx.data_vars)):
+                vals = dsx[nm].values
+                bad = None
+                if vals.shape != (ax_n.size, ax_e.size):
+                    bad = ("shape", vals.shape)
+                else:
+                    for i in range(ax_n.size):
+                        for j in range(ax_e.size):
+                            q = (np.array(ax_e[j]), np.array(ax_n[i]))
+                            if pf is not None:
+                                q = pf(*q)
+                            p = est.predict(q)
+                            p = p[k] if isinstance(p, tuple) else p
+                            if not ((np.isnan(float(p)) and np.isnan(vals[i, j])) or abs(float(p) - vals[i, j]) <= 1e-9 * (1 + abs(float(p)))):
+                                bad = (i, j, float(vals[i, j]), float(p))
+                rec.check(bad is None, "%s.grid(coordinates = %s): value at %s differs from predict at that node: %s" % (name, fname, bad[:2] if bad else "", bad))
         sc_ = call(rec, est.scatter, size=4, random_state=2)
         if raised(sc_):
             rec.check(False, "scatter raised %r" % (sc_,))
